@@ -12,8 +12,10 @@ Import ListNotations.
 Definition depth9 : nat := 8.
 
 Inductive case9 :=
-  (* inline(P.f, where, recursive) *)
-  | KInline (P : program) (f : ident) (recursive : bool) (wh : option nat) (real : option func)
+  (* inline(P.f, where, recursive); refs: per function, the calls (numbered in visit order) that the
+     implementation refused because of their position (empty for the code as it is) *)
+  | KInline (P : program) (f : ident) (recursive : bool) (wh : option nat)
+            (refs : list (ident * list nat)) (real : option func)
   (* monomorphize(fn, ctx) *)
   | KMono (fn : func) (c : ctx) (real : option func)
   (* lift_context(fn) *)
@@ -21,26 +23,51 @@ Inductive case9 :=
   (* close(fn) with the captured (name, literal) pairs in prelude order *)
   | KClose (cs : list (ident * expr)) (fn : func) (real : func).
 
+Definition ref_of (refs : list (ident * list nat)) (g : ident) (occ : nat) : bool :=
+  match find (fun p => String.eqb (fst p) g) refs with
+  | Some (_, l) => existsb (Nat.eqb occ) l
+  | None => false
+  end.
+
+(* the model of the code as it is *)
 Definition model9 (c : case9) : option func :=
   match c with
-  | KInline P f r wh _ => match lookup_fn P f with Some fn => inline P depth9 r wh fn | None => None end
+  | KInline P f r wh _ _ => match lookup_fn P f with Some fn => inline P depth9 r wh fn | None => None end
   | KMono fn c _ => mono c fn
   | KLift fn _ => lift_ctx prov_numops fn
   | KClose cs fn _ => Some (close cs fn)
   end.
 
+(* ... and with any subset of the proposed repairs (fixes/C09-*.diff) in force *)
+Definition models9 (c : case9) : list (option func) :=
+  match c with
+  | KInline P f r wh refs _ =>
+      match lookup_fn P f with
+      | Some fn =>
+          map (fun ab => inline_x (IFix (fst ab) (snd ab) (ref_of refs)) P depth9 r wh f fn)
+              [(false, false); (true, false); (false, true); (true, true)]
+      | None => [None]
+      end
+  | KLift fn _ => [lift_ctx_x prov_numops false fn; lift_ctx_x prov_numops true fn]
+  | _ => [model9 c]
+  end.
+
 Definition real9 (c : case9) : option func :=
   match c with
-  | KInline _ _ _ _ r | KMono _ _ r | KLift _ r => r
+  | KInline _ _ _ _ _ r | KMono _ _ r | KLift _ r => r
   | KClose _ _ r => Some r
   end.
 
-Definition check9 (c : case9) : bool := aeq_ofunc (model9 c) (real9 c).
+Definition check9 (c : case9) : bool := existsb (fun m => aeq_ofunc m (real9 c)) (models9 c).
+
+(* does the implementation agree with the model of the code AS IT IS (no repair)?  statistics *)
+Definition ascoded9 (c : case9) : bool := aeq_ofunc (model9 c) (real9 c).
+Definition notascoded9 (c : case9) : bool := negb (ascoded9 c).
 
 (* is the case inside the fragment the soundness theorems cover? (statistics only) *)
 Definition frag9 (c : case9) : bool :=
   match c with
-  | KInline P _ _ _ _ => prog_ok P
+  | KInline P _ _ _ _ _ => prog_ok P
   | KMono _ _ _ => true
   | KLift fn _ => aeq_ofunc (lift_ctx_lit prov_numops fn) (lift_ctx prov_numops fn)
   | KClose cs _ _ => match cap_values cs with Some _ => true | None => false end
